@@ -644,17 +644,37 @@ static void *stress_worker_pthread(void *arg)
     return NULL;
 }
 
+/* T=<n>: before the storm, n tasklets created on a stream are freed by an external thread (their descriptors go
+ * back through the external descriptor pool, which then hands full buckets to the global descriptor pool) */
+static ABT_task s_tasks[8192];
+static int s_T;
+static volatile int s_tfree_done;
+static void stress_task_body(void *arg)
+{
+    (void)arg;
+}
+static void *stress_task_freer(void *arg)
+{
+    (void)arg;
+    int i;
+    for (i = 0; i < s_T; i++)
+        if (ABT_task_free(&s_tasks[i]) != ABT_SUCCESS)
+            VH_DIE("stress task free");
+    __atomic_store_n(&s_tfree_done, 1, __ATOMIC_RELEASE);
+    return NULL;
+}
+
 static void child_stress(char *line, FILE *out)
 {
     char *save1;
     char *hd = strtok_r(line, ";", &save1);
     char *par = strtok_r(NULL, ";", &save1);
-    unsigned long W = 2, X = 1, R = 10, K = 8;
+    unsigned long W = 2, X = 1, R = 10, K = 8, T = 0;
     {
         char *save0, *tok = strtok_r(par, " ", &save0);
         for (; tok; tok = strtok_r(NULL, " ", &save0)) {
             if (sscanf(tok, "W=%lu", &W) == 1 || sscanf(tok, "X=%lu", &X) == 1 ||
-                sscanf(tok, "R=%lu", &R) == 1 || sscanf(tok, "K=%lu", &K) == 1)
+                sscanf(tok, "R=%lu", &R) == 1 || sscanf(tok, "K=%lu", &K) == 1 || sscanf(tok, "T=%lu", &T) == 1)
                 continue;
         }
     }
@@ -700,6 +720,19 @@ static void child_stress(char *line, FILE *out)
     ABT_thread wk[64];
     pthread_t px[64];
     unsigned long i;
+    if (T > 8192)
+        T = 8192;
+    s_T = (int)T;
+    if (T) {
+        pthread_t fr;
+        for (i = 0; i < T; i++)
+            if (ABT_task_create(s_pools[1], stress_task_body, NULL, &s_tasks[i]) != ABT_SUCCESS)
+                VH_DIE("stress task create");
+        pthread_create(&fr, NULL, stress_task_freer, NULL);
+        while (!__atomic_load_n(&s_tfree_done, __ATOMIC_ACQUIRE))
+            ABT_thread_yield();
+        pthread_join(fr, NULL);
+    }
     if (W > 64)
         W = 64;
     if (X > 64)
